@@ -442,3 +442,137 @@ Proof.
     - intro H. exists x. split; [exact H|apply N.eqb_refl]. }
   rewrite <- !M. rewrite E. tauto.
 Qed.
+
+(* ======================= the proposed repair ==================================================== *)
+(* (in stopProv, in earlyStopProv) for one key *)
+Definition fstep (k : N) (st : bool * bool) (o : bop) : bool * bool :=
+  let (t, e) := st in
+  match view k o with
+  | KOnce => if t then (false, true) else (t, e)
+  | KStart | KForce => (false, false)
+  | KStop => (true, e)
+  | KNone => (t, e)
+  end.
+Definition fflags (k : N) (l : list bop) (st : bool * bool) : bool * bool := fold_left (fstep k) l st.
+
+Lemma fix_ops_spec l : forall a k,
+  let a' := fold_left fix_step l a in
+  memN k (g_once (fg a')) = memN k (g_once (fg a)) || has KOnce k l /\
+  memN k (g_start (fg a')) = memN k (g_start (fg a)) || has KStart k l /\
+  memN k (g_force (fg a')) = memN k (g_force (fg a)) || has KForce k l /\
+  (memN k (g_stop (fg a')), memN k (fg_early a')) = fflags k l (memN k (g_stop (fg a)), memN k (fg_early a)).
+Proof.
+  induction l as [|o l IH]; intros a k; simpl.
+  - unfold has, fflags; simpl. rewrite !orb_false_r. repeat split; reflexivity.
+  - destruct (IH (fix_step a o) k) as [H1 [H2 [H3 H4]]].
+    unfold has, fflags in *. simpl. rewrite H1, H2, H3, H4. clear H1 H2 H3 H4 IH.
+    unfold fstep at 2. unfold view.
+    destruct o as [x|x|x|x|]; simpl.
+    + destruct (memN x (g_stop (fg a))) eqn:M; simpl;
+        rewrite ?memN_app, ?memN_one, ?memN_delN, ?memN_setN;
+        destruct (N.eqb k x) eqn:E; simpl;
+        rewrite ?orb_false_r, ?andb_true_r, ?andb_false_r, ?orb_true_r, ?orb_assoc;
+        try (apply N.eqb_eq in E; subst; rewrite M);
+        repeat split; reflexivity.
+    + rewrite ?memN_app, ?memN_one, ?memN_delN; destruct (N.eqb k x); simpl;
+        rewrite ?orb_false_r, ?andb_true_r, ?andb_false_r, ?orb_true_r, ?orb_assoc; repeat split; reflexivity.
+    + rewrite ?memN_app, ?memN_one, ?memN_delN; destruct (N.eqb k x); simpl;
+        rewrite ?orb_false_r, ?andb_true_r, ?andb_false_r, ?orb_true_r, ?orb_assoc; repeat split; reflexivity.
+    + rewrite ?memN_setN; destruct (N.eqb k x); simpl;
+        rewrite ?orb_false_r, ?orb_true_r; repeat split; reflexivity.
+    + rewrite ?orb_false_r. repeat split; reflexivity.
+Qed.
+
+Definition kfix (k : N) (l : list bop) (b : bool * bool) : bool * bool :=
+  let (bk, bp) := b in
+  let f := has KForce k l in
+  let s := has KStart k l in
+  let o := has KOnce k l in
+  let (t, e) := fflags k l (false, false) in
+  let k1 := bk || f || s in
+  let p1 := bp || f || (s && negb (bk || f)) in
+  let k2 := k1 && negb e in
+  let p2 := p1 && negb e in
+  (k2 && negb t, (p2 || o) && negb t).
+
+Lemma fix_batch_key k l b : fold_left (k_apply k) (fix_batch_calls l) b = kfix k l b.
+Proof.
+  unfold fix_batch_calls, fix_operations.
+  destruct (fix_ops_spec l fgroups0 k) as [H1 [H2 [H3 H4]]]. simpl in H1, H2, H3, H4.
+  rewrite !fold_left_app.
+  rewrite (k_apply_call_if k (IStart true)) by (intros [x y]; simpl; rewrite !orb_false_r; reflexivity).
+  rewrite (k_apply_call_if k (IStart false)) by (intros [x y]; simpl; rewrite !orb_false_r; reflexivity).
+  rewrite (k_apply_call_if k IStop) by (intros [x y]; simpl; rewrite !andb_true_r; reflexivity).
+  rewrite (k_apply_call_if k IOnce) by (intros [x y]; simpl; rewrite !orb_false_r; reflexivity).
+  rewrite (k_apply_call_if k IStop) by (intros [x y]; simpl; rewrite !andb_true_r; reflexivity).
+  destruct b as [bk bp]. unfold kfix. simpl. rewrite H1, H2, H3.
+  destruct (fflags k l (false, false)) as [t e]. inversion H4 as [[Ht He]]. rewrite Ht, He.
+  destruct bk, bp, (has KForce k l), (has KStart k l), (has KOnce k l), t, e; reflexivity.
+Qed.
+
+Lemma fflags_snoc k l o st : fflags k (l ++ [o]) st = fstep k (fflags k l st) o.
+Proof. unfold fflags. rewrite fold_left_app. reflexivity. Qed.
+
+Lemma fix_ks_eq_seq k l : forall bk bp, fst (kfix k l (bk, bp)) = fst (kseq k l (bk, bp)).
+Proof.
+  induction l as [|o l IH] using rev_ind; intros bk bp.
+  - unfold kfix, kseq, has, fflags; simpl. rewrite !orb_false_r, !andb_true_r. reflexivity.
+  - specialize (IH bk bp). unfold kfix in *.
+    rewrite !has_snoc, fflags_snoc, kseq_snoc.
+    destruct (fflags k l (false, false)) as [t e]. destruct (kseq k l (bk, bp)) as [sk sp].
+    simpl in IH. unfold seq_step, fstep.
+    destruct (view k o); simpl;
+      destruct bk, bp, (has KForce k l), (has KStart k l), (has KOnce k l), t, e, sk;
+      simpl in *; try reflexivity; try discriminate.
+Qed.
+
+Lemma fix_pend_both k l : forall bk bp,
+  (snd (kfix k l (bk, bp)) = true -> snd (kseq k l (bk, bp)) = true) /\
+  (snd (kseq k l (bk, bp)) = true -> snd (kfix k l (bk, bp)) = true \/ bk = true).
+Proof.
+  induction l as [|o l IH] using rev_ind; intros bk bp.
+  - unfold kfix, kseq, has, fflags; simpl. rewrite !orb_false_r, !andb_true_r. auto.
+  - specialize (IH bk bp). pose proof (fix_ks_eq_seq k l bk bp) as HK. unfold kfix in *.
+    rewrite !has_snoc, fflags_snoc, kseq_snoc.
+    destruct (fflags k l (false, false)) as [t e]. destruct (kseq k l (bk, bp)) as [sk sp].
+    simpl in IH, HK. destruct IH as [IH1 IH2]. unfold seq_step, fstep.
+    destruct (view k o); simpl;
+      destruct bk, bp, (has KForce k l), (has KStart k l), (has KOnce k l), t, e, sk, sp;
+      simpl in *; split; intro; auto; try discriminate;
+      try (destruct (IH2 eq_refl); discriminate); try (specialize (IH1 eq_refl); discriminate).
+Qed.
+
+(* the repaired wrapper: same keystore as one-by-one execution, for EVERY operation list
+   (undecodable items are skipped by both) and every batching *)
+Lemma fix_worker_ks k : forall cs s,
+  kin k (i_run s (flat_map fix_batch_calls cs)) = kks k (concat cs) (kin k s).
+Proof.
+  induction cs as [|c cs IH]; intro s; simpl; [reflexivity|].
+  unfold i_run. rewrite fold_left_app. fold (i_run s (fix_batch_calls c)).
+  fold (i_run (i_run s (fix_batch_calls c)) (flat_map fix_batch_calls cs)).
+  rewrite IH.
+  pose proof (i_run_key k (fix_batch_calls c) s) as E. rewrite fix_batch_key in E.
+  assert (Ek : kin k (i_run s (fix_batch_calls c)) = fst (kfix k c (kin k s, pin k s)))
+    by (rewrite <- E; reflexivity).
+  rewrite Ek, fix_ks_eq_seq. unfold kks. rewrite kseq_app.
+  rewrite (kseq_fst_indep k c (kin k s) (pin k s) false).
+  destruct (kseq k c (kin k s, false)) as [a b]. simpl. apply kseq_fst_indep.
+Qed.
+
+Theorem fix_ks_equiv :
+  forall (cs : list (list bop)) (s : inner) (k : N),
+    kin k (i_run s (flat_map fix_batch_calls cs)) = kin k (i_run s (seq_calls (concat cs))).
+Proof. intros cs s k. rewrite fix_worker_ks. symmetry. apply seq_ks. Qed.
+
+Theorem fix_pend :
+  forall (l : list bop) (s : inner) (k : N),
+    (pin k (i_run s (fix_batch_calls l)) = true -> pin k (i_run s (seq_calls l)) = true) /\
+    (pin k (i_run s (seq_calls l)) = true -> pin k (i_run s (fix_batch_calls l)) = true \/ kin k s = true).
+Proof.
+  intros l s k.
+  pose proof (i_run_key k (fix_batch_calls l) s) as E1. rewrite fix_batch_key in E1.
+  pose proof (i_run_key k (seq_calls l) s) as E2. rewrite seq_calls_key in E2.
+  assert (A : pin k (i_run s (fix_batch_calls l)) = snd (kfix k l (kin k s, pin k s))) by (rewrite <- E1; reflexivity).
+  assert (B : pin k (i_run s (seq_calls l)) = snd (kseq k l (kin k s, pin k s))) by (rewrite <- E2; reflexivity).
+  rewrite A, B. apply fix_pend_both.
+Qed.
